@@ -2564,7 +2564,9 @@ PIP_Solution_Node
 
         WEIGHT_ADD(140);
         if (is_parameter) {
-          p_row.insert(p_index, coeff_i * denom);
+          // Add (rather than overwrite): the rows of non-basic variables
+          // met earlier may have contributed to this parameter's column.
+          add_mul_assign(p_row[p_index], coeff_i, denom);
           ++p_index;
         }
         else {
